@@ -96,7 +96,13 @@ func Prepare(run *report.Run, race bool) (*Setup, error) {
 	return s, nil
 }
 
-func (s *Setup) Cleanup() { _ = os.RemoveAll(s.Base) }
+func (s *Setup) Cleanup() {
+	if os.Getenv("VERIF_KEEP") != "" {
+		fmt.Fprintln(os.Stderr, "kept scratch:", s.Base)
+		return
+	}
+	_ = os.RemoveAll(s.Base)
+}
 
 func randCfg(r *rng.R) grog.Config {
 	c := grog.Config{NumWorkers: r.Range(1, 4)}
